@@ -72,7 +72,9 @@ pub trait ServerMsg: ReadXml {
             match reader.read_resolved_event()? {
                 (ResolveResult::Bound(ns), Event::Start(tag))
                     if ns == Self::TAG_NS
-                        && tag.local_name().as_ref() == Self::TAG_NAME.as_bytes() =>
+                        && tag.local_name().as_ref() == Self::TAG_NAME.as_bytes()
+                        // a document has one root element
+                        && this.is_none() =>
                 {
                     this = Some(Self::read_xml(&mut reader, &tag)?);
                 }
